@@ -1,11 +1,6 @@
-HOOK_COMMITS = ["c3242d6"]
+import props
+HOOK_COMMITS = [l.split()[0] for l in open(__import__("os").path.join(__import__("os").path.dirname(__import__("os").path.dirname(__import__("os").path.abspath(__file__))), "MANIFEST.hooks")) if l.strip() and not l.startswith("#")]
 NOTES = "Machine-checked proof in Coq 8.16.1 over hand-written and regenerated models, tied to /repo on every run by translators and a correspondence harness; see DESIGN.md."
 PENDING = "check under construction in this build phase (model and theorems not committed yet); will be claimed once its Properties.v and harness family exist"
 NOT_APPLICABLE = {("C%02d" % i): PENDING for i in range(1, 21)}
-META = {
- "C07": {
-  "technique": "Coq theorems (VLQ round trip, v3 mappings round trip for every builder event list) + model/implementation correspondence by vm_compute + marker-program oracle through api.Build",
-  "text": "Theorems, for all integers and all event lists, that the VLQ codec round-trips and that the mappings string written by the chunk builder denotes exactly the added mappings under an independent v3 decoder; the executable models of AppendSourceMapChunk, Finalize and Find are tied to the Go code by seeded correspondence and the property's predicate (every mapping points at the same marker token, positions after path substitution are true) is evaluated on real builds.",
-  "note": "Trusted: Coq kernel, the correspondence harness, Go int as unbounded Z within stated bounds. Modelled not verified: internal/sourcemap functions named in the evidence; where printers record mappings is exercised only by the oracle (partial on the printer side).",
- },
-}
+META = {pid: {"technique": c["technique"], "text": c["text"], "note": c["note"]} for pid, c in props.PROPS.items()}
